@@ -52,7 +52,7 @@ MANIFEST = {
             'open an un-rerandomised product with threshold 2t for medium/large fields (F-C18-5..10). to_bits on binary fields: rows '
             'assume the precondition a < 2^l (nothing above bit l is secret). The product-opening theorems are toy-size exhaustive '
             'counts (p=11, m=3, t=1), not a general proof; the per-site rerandomisation obligation is a syntactic data-flow rule. Shares received by the coalition are checked exactly only for the dealing function on small prime fields (see C13/C15 for the general statements). NumPy sites are run only when .venv-np exists. The bit-layout stream runs single-party (shares are values) with random_bits/_randoms replaced by chosen values; only trunc/np_trunc are covered by it (np_sgn/np_to_bits/np_is_zero bit layouts are not).',
-    'technique': 'Coq counting proof of statistical distance + source-regenerated mask table with per-row compiled obligations + simulator correspondence of mask bounds',
+    'technique': 'Coq counting proof of statistical distance + bijection proof for the bit layout of list truncation masks + source-regenerated mask table with per-row compiled obligations + simulator correspondence of mask bounds and bit layout (vm_compute)',
 }
 
 HERE = os.path.dirname(os.path.abspath(__file__))
